@@ -42,6 +42,7 @@ FIXES = [
     ('14-C08-everyn-positions-bounded.patch', 'C08', 'C08.EVERYN'),
     ('15-C11-combine1fiber-without-ivar.patch', 'C11', 'C11.NONE-DEREF'),
     ('16-C01-zero-row-table-with-array-column.patch', 'C01', 'C01.ZERO-ROW'),
+    ('17-C07-set_maskbits-fold-keys.patch', 'C07', 'C07.CASEFOLD-STORE'),
 ]
 
 
